@@ -7,8 +7,20 @@ from . import terms as T
 DATA = "fidget-core/src/vm/data.rs"
 
 
+_KEEP = ("active", "set_active", "get_or_insert_active", "reset", "finalize", "op", "output", "has_choice", "choice_count")
+_SF = {}
+
+
 def simplify_fn(root=None):
-    return A.find_fn(DATA, "simplify", self_ty="VmData", root=root)
+    """VmData::simplify, read with private same-file helpers expanded in place (the workspace primitives the
+    rules talk about are kept as calls)"""
+    key = root or A.REPO
+    if key not in _SF:
+        fn0 = A.find_fn(DATA, "simplify", self_ty="VmData", root=root)
+        fn = dict(fn0)
+        fn["body"] = A.inline_helpers(fn0, keep=_KEEP)
+        _SF[key] = fn
+    return _SF[key]
 
 
 def main_loop(fn):
